@@ -14,7 +14,7 @@ PROPS = {
     'C16': dict(
         text='TLC enumerates the complete decision table of TxField.tla: every protobuf field of types.Transaction and '
              'types.Signature (field lists read by reflection from the generated Go types at run time) x mutation '
-             '{flip, zero, extend by 1 / 32 bytes, truncate} x every registered signature type x address format x height '
+             '{flip a bit, flip a bit of the first byte, zero, extend by 1 / 32 bytes, truncate} x every registered signature type x address format x height '
              'class {below, at, above the enable height}, under three crypto configurations set through crypto.Init; the '
              'specification computes the expected row (Hash changes iff the field is not signature/header, FullHash always, '
              'Clone/CloneTx preserve both, CheckSign true iff unmutated and the type is enabled at h) and TLC checks the '
@@ -57,7 +57,7 @@ PROPS = {
     ),
 }
 
-MUTS = ['flip', 'zero', 'ext1', 'ext32', 'trunc']
+MUTS = ['flip', 'flip0', 'zero', 'ext1', 'ext32', 'trunc']
 KNOWN_TX = ['execer', 'payload', 'signature', 'fee', 'expire', 'nonce', 'to', 'groupCount', 'header', 'next', 'chainID']
 KNOWN_SIG = ['ty', 'pubkey', 'signature']
 
@@ -97,6 +97,12 @@ def ccfg_opts(name):
     if c['enh']:
         o['enh'] = '+'.join('%s:%d' % kv for kv in sorted(c['enh'].items()))
     return o
+
+
+def no_dead_actions(r, what):
+    """-coverage 1 runs: an action that never fired makes the exhaustive run vacuous (exit 2)."""
+    if r.get('zero_actions'):
+        raise vlib.Broken('%s: actions never taken in the exhaustive run (vacuous): %s' % (what, r['zero_actions']))
 
 
 def driver_json(ctx, binary, cmd, opts=None):
@@ -158,7 +164,8 @@ def run_c16(ctx, b):
         d = ctx.stage()
         ctx.write_cfg(d, 'f_mc.cfg', field_cfg(fields, sigtypes, off, gated, fmts, False, False))
         ctx.write_cfg(d, 'f_all.cfg', field_cfg(fields, sigtypes, off, gated, fmts, True, True))
-        ctx.tlc_mc('TxField_MC', 'f_mc.cfg', workers=2, timeout=3600, stage=d, coverage=(not q and ci == 0))
+        r = ctx.tlc_mc('TxField_MC', 'f_mc.cfg', workers=2, timeout=3600, stage=d, coverage=(not q and ci == 0))
+        no_dead_actions(r, 'TxField')
         rows = ctx.tlc_genall('TxField_All', 'f_all.cfg', stage=d, timeout=3600)
         for r in rows:
             r['id'] = '%s-%s' % (cname, r['id'])
@@ -244,7 +251,8 @@ def run_c17(ctx, b):
         d = ctx.stage()
         ctx.write_cfg(d, 'g_mc.cfg', group_cfg(sizes, allpos, txf, False, False))
         ctx.write_cfg(d, 'g_all.cfg', group_cfg(sizes, allpos, txf, True, True))
-        ctx.tlc_mc('TxGroup_MC', 'g_mc.cfg', workers=2, timeout=5400, stage=d, coverage=(not q and pi == 0))
+        r = ctx.tlc_mc('TxGroup_MC', 'g_mc.cfg', workers=2, timeout=5400, stage=d, coverage=(not q and pi == 0))
+        no_dead_actions(r, 'TxGroup')
         rows = ctx.tlc_genall('TxGroup_All', 'g_all.cfg', stage=d, timeout=5400)
         for r in rows:
             r['id'] = 'p%d-%s' % (pi, r['id'])
@@ -335,62 +343,95 @@ def run_c19(ctx, b):
                         'configurations set through address.Init / crypto.Init / Chain33Config.SetFork / crypto client context']
     verd = driver_json(ctx, b, 'verdicts', dict(PCFGS['A'], cfg='A'))
     ctx.extra['verdict_table_matches_code'] = check_verdicts(ctx, verd)
-    plan = [('A', 4), ('B', 3)] if q else [('A', 4), ('B', 4), ('C', 4)]
-    for ci, (cname, L) in enumerate(plan):
+    # (configuration, history length, export every node-step history?, process-level repetitions, simulated histories)
+    if q:
+        plan = [('A', 4, True, 0, 30), ('B', 4, False, 0, 30)]
+    else:
+        plan = [('A', 4, True, 4, 300), ('B', 4, True, 2, 300), ('C', 4, True, 4, 300)]
+    for ci, (cname, L, export, nrep, nsim) in enumerate(plan):
         c = PCFGS[cname]
         heights = pure_heights(c)
         noctx = True
-        if not q and cname == 'B':
-            heights = [h for h in heights if h not in (99, 201)]   # 6^4 histories: the outer "far" heights add nothing new
+        if cname == 'B':
+            heights = [h for h in heights if h not in (99, 201)]   # the outer "far" heights add nothing new
         d = ctx.stage()
         # 1. the property on the mechanism as repaired (this is what the code is claimed to be)
-        ctx.write_cfg(d, 'p_mc.cfg', pure_cfg(c, heights, noctx, L, 'all', REPAIRED, False, 'mc'))
-        ctx.tlc_mc('Pure_MC', 'p_mc.cfg', workers=2, timeout=3600, stage=d, coverage=(not q and ci == 0))
-        ctx.write_cfg(d, 'p_mcs.cfg', pure_cfg(c, heights, noctx, 3, 'single', REPAIRED, False, 'mc'))
-        ctx.tlc_mc('Pure_MC', 'p_mcs.cfg', workers=2, timeout=3600, stage=d)
+        if export:
+            ctx.write_cfg(d, 'p_mc.cfg', pure_cfg(c, heights, noctx, L, 'all', REPAIRED, False, 'mc'))
+            ctx.tlc_mc('Pure_MC', 'p_mc.cfg', workers=2, timeout=3600, stage=d, coverage=(not q and ci == 0))
+        if not q or not export:
+            ctx.write_cfg(d, 'p_mcs.cfg', pure_cfg(c, heights, noctx, 3, 'single', REPAIRED, False, 'mc'))
+            ctx.tlc_mc('Pure_MC', 'p_mcs.cfg', workers=2, timeout=3600, stage=d)
         # 2. anti-vacuity of the model: the mechanism as found violates Pure (candidates; only replays decide)
-        if ci == 0 or not q:
+        if cname == 'B' or not q:
             found = []
             for mech in AS_FOUND:
                 ctx.write_cfg(d, 'p_af.cfg', pure_cfg(c, heights, noctx, 3, 'all', mech, False, 'mc'))
-                r = ctx.tlc_mc('Pure_MC', 'p_af.cfg', workers=2, timeout=3600, stage=d, expect_violation=True, count=False)
+                r = quiet_expected_violation(lambda: ctx.tlc_mc('Pure_MC', 'p_af.cfg', workers=2, timeout=3600, stage=d,
+                                                                 expect_violation=True, count=False))
                 found.append(bool(r['violation']))
             ctx.extra.setdefault('as_found_mechanisms_violate_Pure', {})[cname] = found
             if cname == 'B' and not all(found):
                 raise vlib.Broken('Pure.tla: an as-found mechanism no longer violates Pure under configuration B (model vacuous)')
-        # 3. every history of L node steps
-        ctx.write_cfg(d, 'p_all.cfg', pure_cfg(c, heights, noctx, L, 'all', REPAIRED, True, 'all'))
-        hist = ctx.tlc_genall('Pure_All', 'p_all.cfg', stage=d, timeout=3600)
-        for r in hist:
-            r['id'] = '%s-%s' % (cname, r['id'])
-        opts = dict(c, cfg=cname, inst=3, reps=5, strict=(6 if q else 40))
-        ctx.replay(b, hist, opts=opts, par=8, timeout=7200)
-        if not q:
-            # process-level repetitions (map order, scheduling) of the shorter histories
-            short = [dict(r, steps=r['steps'][:3]) for r in hist]
-            seen, uniq = set(), []
-            for r in short:
-                k = json.dumps([s['h'] for s in r['steps']])
-                if k not in seen:
-                    seen.add(k)
-                    uniq.append(r)
-            for rep in range(1, 5):
-                ctx.replay(b, uniq, opts=dict(opts, salt=rep), par=8, timeout=7200, count=False)
+        opts = dict(c, cfg=cname, inst=3, reps=5, strict=(6 if q else 12))
+        nhist = 0
+        if export:
+            # 3. every history of L node steps
+            ctx.write_cfg(d, 'p_all.cfg', pure_cfg(c, heights, noctx, L, 'all', REPAIRED, True, 'all'))
+            hist = ctx.tlc_genall('Pure_All', 'p_all.cfg', stage=d, timeout=3600)
+            for r in hist:
+                r['id'] = '%s-%s' % (cname, r['id'])
+            nhist = len(hist)
+            ctx.replay(b, hist, opts=opts, par=8, timeout=14400)
+            if nrep:
+                # process-level repetitions (map order, scheduling) of the 3-step prefixes
+                seen, uniq = set(), []
+                for r in hist:
+                    k = json.dumps([s['h'] for s in r['steps'][:3]])
+                    if k not in seen:
+                        seen.add(k)
+                        uniq.append(dict(r, steps=r['steps'][:3]))
+                for rep in range(1, nrep + 1):
+                    ctx.replay(b, uniq, opts=dict(opts, salt=rep), par=8, timeout=14400, count=False)
         # 4. single-input histories in arbitrary interleavings
         ctx.write_cfg(d, 'p_gen.cfg', pure_cfg(c, heights, noctx, 8, 'single', REPAIRED, True, 'mc').replace('VIEW view\n', '').replace('INVARIANTS TypeOK Pure CacheSound\n', ''))
-        sims = ctx.tlc_sim('Pure_MC', 'p_gen.cfg', num=(60 if q else 600), depth=9, stage=d)
+        sims = ctx.tlc_sim('Pure_MC', 'p_gen.cfg', num=nsim, depth=9, stage=d)
         for r in sims:
             r['id'] = '%s-%s' % (cname, r['id'])
-        ctx.replay(b, sims, opts=opts, par=8, timeout=7200)
-        ctx.extra.setdefault('histories', {})[cname] = dict(node_step_histories=len(hist), single_input_histories=len(sims), heights=heights + [-1])
+        ctx.replay(b, sims, opts=opts, par=8, timeout=14400)
+        ctx.extra.setdefault('histories', {})[cname] = dict(node_step_histories=nhist, single_input_histories=len(sims), heights=heights + [-1])
     ctx.exhaustive = False  # exhaustive over abstract height sequences; inputs / map orders sampled
     # 5. recorded random histories, validated by the trace specification
     c = PCFGS['B']
     d = ctx.stage()
     ctx.write_cfg(d, 'p_trace.cfg', pure_cfg(c, pure_heights(c), True, 1000000, 'single', REPAIRED, False, 'trace'))
-    ctx.validate_recording(b, 'Pure_Trace', 'p_trace.cfg', recorder='pure',
-                           opts=dict(c, cfg='B', n=(4 if q else 30), depth=(20 if q else 40), inst=2, reps=3, strict=4),
-                           selftest=True, stage=d, timeout=3600)
+    r, _ = ctx.validate_recording(b, 'Pure_Trace', 'p_trace.cfg', recorder='pure',
+                                  opts=dict(c, cfg='B', n=(3 if q else 30), depth=(15 if q else 40), inst=2, reps=3, strict=3),
+                                  selftest=False, stage=d, timeout=3600)
+    if r['accepted']:
+        # binding self-test (anti-vacuity): one recorded answer corrupted must be rejected
+        tp = os.path.join(d, 'trace.ndjson')
+        lines = [json.loads(x) for x in open(tp) if x.strip()]
+        idx = max(i for i, ev in enumerate(lines) if ev.get('ev') == 'Ans')
+        lines[idx]['ret'] = lines[idx]['ret'] + '~'
+        bad = os.path.join(ctx.scratch, 'trace-bad.ndjson')
+        with open(bad, 'w') as f:
+            for ev in lines:
+                f.write(json.dumps(ev) + '\n')
+        r2 = ctx.tlc_trace('Pure_Trace', 'p_trace.cfg', bad, stage=d, timeout=3600)
+        if r2['accepted']:
+            raise vlib.Broken('binding self-test failed: a corrupted answer (event %d) was accepted by Pure_Trace' % idx)
+        ctx.extra['selftest_corrupted_trace_rejected'] = True
+
+
+def quiet_expected_violation(fn):
+    """Run a TLC self-test whose counterexample is expected: its log line must not look like a verdict."""
+    old = vlib.log
+    vlib.log = lambda *a: old(*[str(x).replace('VIOLATION', 'counterexample (expected, as-found mechanism):') for x in a])
+    try:
+        return fn()
+    finally:
+        vlib.log = old
 
 
 V_SPEC = {  # V(d, c) of Pure.tla
